@@ -107,6 +107,21 @@ def urgent_trigger_order(r):
     return []
 
 
+def ordinary_overtakes(r):
+    """restates C01 "whatever is scheduled for time t takes effect at exactly t ... within each of these two classes strictly in the
+    order in which they were triggered" on what the program observes: an event the program triggers with succeed()/fail() is
+    an ordinary occurrence due now; it takes effect (a process that yields it continues with its outcome, a condition counts it)
+    only when its turn comes, i.e. after every occurrence triggered earlier for this instant (urgent ones included).  Seeing
+    it processed within the very burst that triggered it, while earlier-triggered occurrences due now are still pending, is an
+    overtaking."""
+    for lab, by, at, how, ahead, now in r.overtakes:
+        d = ', '.join(f'{typ} e{l} (trigger #{seq}, due at {time})' if l else f'{typ} (trigger #{seq}, due at {time})' for typ, l, seq, time in ahead)
+        return [{'what': f'event e{lab} was triggered by process {by} at {at} and took effect in the same burst ({how}) although '
+                         f'occurrences triggered earlier and due at that instant were still pending: {d}; ordinary occurrences take '
+                         f'effect strictly in trigger order, after the urgent ones', 'signature': 'c01-ordinary-trigger-order'}]
+    return []
+
+
 def oracle_c01(case, lines, runner=None):
     """time order / urgent first / trigger order / exact due time / priority classes, from the recorded schedule"""
     if case.mode != 'step':
@@ -117,6 +132,7 @@ def oracle_c01(case, lines, runner=None):
     r, env = run_recorded(case)
     fails = [{'what': p, 'signature': 'c01-order'} for p in env.problems[:2]]
     fails += urgent_trigger_order(ri)
+    fails += ordinary_overtakes(ri)
     for rec in env.pending + [x for x, _ in env.popped]:
         t = rec['typ']
         if t in ('Initialize', 'Interruption') and (rec['prio'] != int(URGENT) or rec['delay'] != 0):
@@ -157,6 +173,13 @@ class OracleRunner(kscript.Runner):
         self.keepcb = []
         self.ended = []         # (Process, name, returned normally?, value or exception, now): how each script generator ended
         self.seqno = 0
+        self.cond_obj = {}      # label -> the condition object
+        self.cond_form = {}     # label -> how the operands were handed to the constructor (list, generator, iterator, tuple, filter, operator)
+        self.trig_at = {}       # label -> (kernel step, RecEnv trigger count) at the accepted succeed()/fail() call of the program
+        self.overtakes = []     # events that took effect in the very burst that triggered them (see ordinary_overtakes)
+        self.lines_done = {}    # label -> number of observation lines when the kernel step that processed the event had ended
+        self.until_returns = [] # (label, already processed at the call, observation lines at the return, returned normally?)
+        self._yielded = {}      # id(Process) -> the event of its current yield
 
     def _tick(self):
         self.seqno += 1
@@ -166,6 +189,7 @@ class OracleRunner(kscript.Runner):
         lab = self.lab(e)
         if lab and lab not in self.processed:
             self.pstep[lab] = self.env.nstep
+            self.lines_done[lab] = len([l for l in self.lines if l[0] in 'PB'])
             self.processed[lab] = (self._tick(), self.env.now, e._ok, e._value,
                                    [self.lab(x) for x in e._value.events] if type(e._value).__name__ == 'ConditionValue' else None)
 
@@ -175,20 +199,37 @@ class OracleRunner(kscript.Runner):
         if what == 'yield':
             name, ev, me = a
             self.rec.append(('yield', self._tick(), (name, id(me)), self.lab(ev), self.env.now, ev.callbacks is None, ev))
+            self._yielded[id(me)] = ev
+            self._took_effect(ev, f'process {name} yielded it and continued at once as if it had been processed')
         elif what == 'resumed':
             name, ok, v, me = a
-            self.rec.append(('resumed', self._tick(), (name, id(me)), ok, v, self.env.now))
+            self.rec.append(('resumed', self._tick(), (name, id(me)), ok, v, self.env.now, self._cond_states(self._yielded.get(id(me)))))
         elif what == 'trigger':
             name, ev, was, raised = a
             self.rec.append(('trigger', self._tick(), name, self.lab(ev), was, raised))
+            if not was and not raised:
+                self.trig_at[self.lab(ev)] = (self.env.nstep, self.env.seq, name, self.env.now)
+        elif what == 'until-return':
+            ev, was_done, normal = a
+            crashed = any(l.startswith('X ') and not (l.split(' ')[1] in ('ValueError', 'RuntimeError', 'EmptySchedule') and l.split(' ')[2] in ('s*', ''))
+                          for l in self.lines)      # an exception other than a refusal came out of an earlier piece of the run
+            self.until_returns.append((self.lab(ev), was_done, len([l for l in self.lines if l[0] in 'PB']), normal and ev.processed and not crashed,
+                                       self.env.now))
         elif what == 'interrupt':
             name, victim, cause, alive, selfi, raised, me, busy = a
             self.rec.append(('interrupt', self._tick(), name, (self.pnames.get(id(victim)), id(victim)), cause, alive, selfi, raised, self.env.now, busy))
+        elif what == 'cond-form':
+            self._form = a[0]
         elif what == 'cond':
             ev, kind, evs = a
+            self.cond_form[self.lab(ev)] = getattr(self, '_form', None) or 'pair of operands of & / |'
+            self._form = None
             self.conds[self.lab(ev)] = (kind, list(evs), self.env.now, self._tick())
             self.cond_pre[self.lab(ev)] = [e.callbacks is None for e in evs]      # what the constructor saw
             self.cond_at[self.lab(ev)] = (self.env.nstep, ev.triggered)
+            self.cond_obj[self.lab(ev)] = ev
+            for e in evs:
+                self._took_effect(e, f'{kind} e{self.lab(ev)} was built over it and counted it as processed')
         elif what == 'spawned':
             p, name = a
             self.rec.append(('spawned', self._tick(), (name, id(p)), self.env.now))
@@ -204,7 +245,30 @@ class OracleRunner(kscript.Runner):
             self.rec.append(('probe', self._tick(), id(cb), self.lab(ev)))
         elif what == 'probed':
             ev, cb = a
-            self.rec.append(('probed', self._tick(), id(cb), self.lab(ev)))
+            self.rec.append(('probed', self._tick(), id(cb), self.lab(ev), self._cond_states(ev)))
+
+    def _cond_states(self, ev):
+        """(label, triggered?) of every condition built so far that has `ev` as a direct operand - read through the public
+        attribute `triggered` at the moment a waiter of `ev` is invoked"""
+        if ev is None:
+            return []
+        return [(lab, self.cond_obj[lab].triggered) for lab, (kind, ops, _, _) in self.conds.items()
+                if lab in self.cond_obj and any(o is ev for o in ops)]
+
+    def _took_effect(self, ev, how):
+        """`ev` is seen as processed (callbacks is None) by the program.  If the program itself triggered it with succeed()/fail()
+        and no kernel step has processed it - it is not the event whose turn it is right now either - its turn cannot have come:
+        everything triggered earlier for this instant and still pending has been overtaken"""
+        lab = self.lab(ev)
+        t = self.trig_at.get(lab)
+        if ev.callbacks is not None or t is None or lab in self.processed or t[3] != self.env.now:
+            return
+        if any(r['ev'] is ev for r in self.env.pending):
+            return          # popped by the step that is running: its callbacks are being invoked right now
+        ahead = [r for r in self.env.pending if r['seq'] < t[1] and r['time'] <= self.env.now and r['ev'].callbacks is not None
+                 and r['prio'] <= int(NORMAL)]
+        if ahead:
+            self.overtakes.append((lab, t[2], t[3], how, [(r['typ'], self.lab(r['ev']), r['seq'], r['time']) for r in ahead[:4]], self.env.now))
 
 
 def same_outcome(ev_ok, ev_val, got_ok, got):
@@ -272,6 +336,121 @@ def registration_order(r, ext):
     return []
 
 
+def trigger_steps(r):
+    """id(event) -> kernel step during which it was triggered (first schedule() call seen by the recording environment)"""
+    out = {}
+    for rec in [x for x, _ in r.env.popped] + r.env.pending:
+        out.setdefault(id(rec['ev']), rec['step'])
+    return out
+
+
+def nested_conditions(r):
+    """labels of conditions that are operands of other conditions: a parent that fires detaches their checks"""
+    out = set()
+    for c in r.cond_obj.values():
+        out |= {r.lab(e) for e in nodes(c)}
+    return out
+
+
+def condition_registration_order(r, ext):
+    """restates C02 "every callback and every process waiting on it at that moment is invoked exactly once, in registration
+    order" for the case where one of the waiters of event E is a condition C built over E (`E | x`, all_of([... E ...])): C waits
+    on E from its construction on.  What being invoked means for C is observable through the public `C.triggered`:
+    * a process (or plain callback) that registered on E BEFORE C was built is invoked before C: when it runs, C - still
+      undecided when E's turn came - cannot have been triggered yet;
+    * one that registered AFTER C was built is invoked after C: if E decides C (E failed; C is an any_of; C is an all_of whose
+      other operands had all been processed), C is already triggered when it runs.
+    Stands down for conditions decided before E was processed, nested in other conditions, or triggered by hand."""
+    tstep = trigger_steps(r)
+    nested = nested_conditions(r)
+    waiting, probes = {}, {}
+    seen = []          # (registration tick, event label, who, condition states when invoked)
+    for rec in r.rec:
+        if rec[0] == 'yield':
+            waiting[rec[2]] = rec
+        elif rec[0] == 'resumed':
+            y = waiting.pop(rec[2], None)
+            if y is not None and not y[5] and not is_interrupt_delivery(rec, y):
+                seen.append((y[1], y[3], f'process {rec[2][0]} (yielded e{y[3]} at {y[4]})', rec[6]))
+        elif rec[0] == 'probe':
+            probes[rec[2]] = rec
+        elif rec[0] == 'probed' and rec[2] in probes:
+            seen.append((probes[rec[2]][1], rec[3], f'a plain callback appended to e{rec[3]}', rec[4]))
+    for s1, lab, who, states in seen:
+        pe = r.pstep.get(lab)
+        if lab in ext or pe is None or not lab:
+            continue
+        e_ok = r.processed[lab][2]
+        for clab, trig in states:
+            kind, ops, _, s2 = r.conds[clab]
+            c = r.cond_obj[clab]
+            if clab in ext or clab in nested or any(r.lab(o) in ext for o in ops):
+                continue
+            if any(r.cond_pre[clab][i] for i, o in enumerate(ops) if r.lab(o) == lab):
+                continue          # E was already processed when C was built: C does not wait on it
+            tc = tstep.get(id(c))
+            if tc is not None and tc < pe:
+                continue          # decided before E's turn came: inert
+            if s2 > s1 and trig:
+                return [{'what': f'{who} registered on event e{lab} before {kind} e{clab} (operands {[r.lab(o) for o in ops]}) was built over '
+                                 f'it; when e{lab} was processed at {r.processed[lab][1]} the condition had already been notified (it was '
+                                 f'triggered) by the time that earlier waiter was invoked: waiters are invoked in registration order',
+                         'signature': 'c02-registration-order-condition'}]
+            others = [o for o in ops if r.lab(o) != lab]
+            decides = (not e_ok) or kind == 'anyof' or all(r.pstep.get(r.lab(o)) is not None and r.pstep[r.lab(o)] < pe for o in others)
+            if s2 < s1 and decides and not trig:
+                return [{'what': f'{kind} e{clab} (operands {[r.lab(o) for o in ops]}) was built over event e{lab} before {who} registered on it; '
+                                 f'e{lab} decides the condition, yet when that later waiter was invoked at {r.processed[lab][1]} the condition '
+                                 f'had not been notified (not triggered): waiters are invoked in registration order',
+                         'signature': 'c02-registration-order-condition'}]
+    return []
+
+
+def unhandled_failures(r, ext, xs):
+    """restates C02 "a failed event that no waiter handles makes run()/step() raise that exception at that instant instead of
+    continuing silently".  Who handled a failure is decided from what the harness saw, not from the event's `defused` mark:
+    a process that was waiting on the event received the exception, or a condition that had the event as operand was still
+    undecided when the event was processed (C05: it then fails with that exception and the failure counts as handled).  A
+    condition that had been triggered in an EARLIER kernel step is out of the game (DESIGN section 3, C05 "operands completing
+    after the condition triggered change nothing").  Stands down whenever a condition that might have handled it exists."""
+    tstep = trigger_steps(r)
+    got = set()
+    waiting = {}
+    for rec in r.rec:
+        if rec[0] == 'yield':
+            waiting[rec[2]] = rec
+        elif rec[0] == 'resumed':
+            y = waiting.pop(rec[2], None)
+            if y is not None and not rec[3] and not is_interrupt_delivery(rec, y):
+                got.add(y[3])
+    for ev in r.keep:
+        lab = r.lab(ev)
+        if ev.callbacks is not None or getattr(ev, '_ok', True) is not False or lab in ext or lab in got or lab not in r.pstep:
+            continue
+        if type(ev).__name__ not in ('Event', 'Process', 'AllOf', 'AnyOf', 'Condition'):
+            continue
+        pe = r.pstep[lab]
+        inert = []
+        for clab, (kind, ops, _, _) in r.conds.items():
+            c = r.cond_obj.get(clab)
+            idx = [i for i, o in enumerate(ops) if o is ev]
+            if not idx or c is None:
+                continue
+            tc = tstep.get(id(c))
+            if clab in ext or tc is None or tc >= pe:
+                inert = None; break        # a condition that was (or may have been) undecided: it handles the failure
+            inert.append((clab, kind, tc))
+        if inert is None:
+            continue
+        if not any(l.split(' ')[1] == type(ev._value).__name__ for l in xs):
+            why = ('; '.join(f'{kind} e{clab} has it as operand but had already been triggered in kernel step {tc}, before e{lab} was processed '
+                             f'in step {pe}' for clab, kind, tc in inert)) or 'no condition has it as operand'
+            return [{'what': f'event e{lab} failed with {ev._value!r} and was processed at {r.processed[lab][1]}; no process was waiting on it '
+                             f'({why}), so nobody handled the failure - and the run did not raise it (it went on'
+                             f'{" and the event is marked defused" if ev.defused else ""})', 'signature': 'c02-failure-lost'}]
+    return []
+
+
 def termination_events(r, ext):
     """restates C02 "a process's own termination is such an event carrying its return value or its uncaught exception": once the
     generator of a process has returned / died, the Process event is triggered with exactly that outcome"""
@@ -310,7 +489,7 @@ def oracle_c02(case, lines, runner=None):
         if rec[0] == 'yield':
             waiting[rec[2]] = rec
         elif rec[0] == 'resumed':
-            _, seq, name, ok, v, now = rec
+            _, seq, name, ok, v, now = rec[:6]
             y = waiting.pop(name, None)
             if y is None:
                 fails.append({'what': f'process {name} was resumed twice for one yield', 'signature': 'c02-double-resume'}); break
@@ -339,6 +518,7 @@ def oracle_c02(case, lines, runner=None):
                               'signature': 'c02-trigger-once'}); break
     fails += lost_waiters(r, waiting, ext)
     fails += registration_order(r, ext)
+    fails += condition_registration_order(r, ext)
     fails += termination_events(r, ext)
     # failures are never lost: a processed failed event is either defused or made the run raise its exception
     xs = [l for l in lines if l.startswith('X ')]
@@ -353,6 +533,8 @@ def oracle_c02(case, lines, runner=None):
             if not any(l.split(' ')[1] == type(ev._value).__name__ for l in xs):
                 fails.append({'what': f'event e{r.lab(ev)} failed with {ev._value!r}, nobody handled it, and the run did not raise it',
                               'signature': 'c02-failure-lost'}); break
+    if not any(f['signature'] == 'c02-failure-lost' for f in fails):
+        fails += unhandled_failures(r, ext, xs)
     return fails[:3]
 
 
@@ -448,8 +630,10 @@ def oracle_c05(case, lines, runner=None):
                 done = [q for q in qs if q is not None]
                 holds = (len(done) == len(ops)) if kind == 'allof' else (len(done) > 0 or not ops)
                 if holds or any(not q[2] for q in done):
-                    fails.append({'what': f'{kind} e{lab} over operands {[r.lab(e) for e in ops]} never fired although '
-                                          f'{len(done)} of {len(ops)} operands were processed', 'signature': 'c05-never-fired'}); break
+                    fails.append({'what': f'{kind} e{lab} over operands {[r.lab(e) for e in ops]} (handed to the constructor as a '
+                                          f'{r.cond_form.get(lab)}) never fired although {len(done)} of {len(ops)} operands were processed'
+                                          + (' (an empty operand list triggers immediately)' if not ops else ''),
+                                  'signature': 'c05-never-fired'}); break
             continue
         pseq, pnow, pok, pval, pkeys = p
         # instants at which the operands were processed (operands processed before construction count from construction)
@@ -540,3 +724,64 @@ def oracle_until_failed(case, lines, runner=None):
             return [{'what': f'run(until=e{n[5]}) returned normally although e{n[5]} failed and no waiter handled the failure',
                      'signature': 'c02-until-failed-returned'}]
     return []
+
+
+def oracle_until_event_return(case, lines, runner=None):
+    """restates C03 "run(until=event) returns that event's value right after it is processed": when run(until=E) is entered
+    with E not yet processed and returns normally, it returns right behind the kernel step that processed E - nothing that the
+    waiters of E set going in that instant (the first statement of a process they started, the delivery of an interrupt they
+    issued, the waiters of an event they triggered) has been observed by then.  Observations = what process bodies and probe
+    callbacks see (the P and B lines of the trace); counted at the end of the kernel step that processed E and at the return.
+    Stands down when E is not processed at the return (oracle_split reports that) and after an exception escaped from an earlier
+    piece of the run (a stop left behind by the aborted piece may end this one: outside the statement)."""
+    if case.mode != 'plan':
+        return []
+    r = instrumented(case)
+    for lab, was_done, nobs, normal, now in r.until_returns:
+        if was_done or not normal or lab not in r.lines_done or lab in externally_triggered(r):
+            continue
+        if nobs != r.lines_done[lab]:
+            obs = [l for l in r.lines if l[0] in 'PB']
+            extra = obs[r.lines_done[lab]:nobs]
+            return [{'what': f'run(until=e{lab}) did not return right after e{lab} was processed (at {r.processed[lab][1]}): by the time it '
+                             f'returned, {len(extra)} further observation(s) had already happened: {extra[:4]} (plan {case.plan})',
+                     'signature': 'until-event-returns-late'}]
+    return []
+
+
+def oracle_pending_discarded(case, lines, runner=None):
+    """restates C04 "interrupts still pending when the process ends are discarded without error": the only exception step() may
+    let out is the exception of a failed event that nobody handled (C02) - the very object's type and arguments.  An exception
+    of another kind coming out of step() after a process ended with accepted interrupts still undelivered means a pending
+    interrupt was not discarded quietly.  (Judged on uninterrupted step-mode runs; programs that trigger Process / Condition
+    objects by hand are outside the quantifier.)"""
+    x = getattr(runner, 'raised', None)
+    if case.mode != 'step' or x is None:
+        return []
+    r = instrumented(case)
+    if externally_triggered(r) or r.out_of_scope:
+        return []
+    for ev in r.keep:
+        v = getattr(ev, '_value', None)
+        if getattr(ev, '_ok', True) is False and isinstance(v, BaseException) and type(v) is type(x) and v.args == x.args:
+            return []          # the failure of an event of the program, re-raised by the kernel: C02's business
+    # accepted interrupts and deliveries per victim, and how each victim ended
+    issued, got, waiting = {}, {}, {}
+    for rec in r.rec:
+        if rec[0] == 'yield':
+            waiting[rec[2]] = rec
+        elif rec[0] == 'interrupt' and not rec[7]:
+            issued.setdefault(rec[3], []).append((rec[4], rec[8]))
+        elif rec[0] == 'resumed':
+            y = waiting.pop(rec[2], None)
+            if is_interrupt_delivery(rec, y) and type(rec[4].cause).__name__ != 'Preempted':
+                got[rec[2]] = got.get(rec[2], 0) + 1
+    for p, name, ok, v, now in r.ended:
+        key = (name, id(p))
+        left = issued.get(key, [])[got.get(key, 0):]
+        if left:
+            return [{'what': f'process {name} ended at {now} ({"returned " + repr(v) if ok else "raised " + repr(v)}) with {len(left)} accepted '
+                             f'interrupt(s) still pending (cause, issued at: {left[:3]}); they must be discarded without error, but step() '
+                             f'raised {x!r} at {r.env.now}', 'signature': 'c04-pending-interrupt-error'}]
+    return [{'what': f'step() raised {x!r} at {r.env.now}, which is not the exception of any failed event of the program',
+             'signature': 'c04-kernel-raised'}]
